@@ -70,13 +70,15 @@ type Rep struct {
 
 // Ctl is the mock controller of one replica
 type Ctl struct {
-	net             *Net
-	rep             *Rep
-	mu              sync.Mutex
-	rootHeight      uint64
-	syncing         atomic.Bool
-	lastRootUpdated uint64
-	Sent            []*bft.Message // every message this replica signed and sent since the harness last cleared it
+	net               *Net
+	rep               *Rep
+	mu                sync.Mutex
+	rootHeight        uint64
+	syncing           atomic.Bool
+	lastRootUpdated   uint64
+	Sent              []*bft.Message  // every message this replica signed and sent since the harness last cleared it
+	MinEvidenceHeight uint64          // scripted: LoadMinimumEvidenceHeight
+	AlreadySlashed    map[string]bool // scripted: "<address hex>@<root height>" pairs for which IsValidDoubleSigner answers false
 }
 
 func (n *Net) logf(f string, a ...any) {
@@ -286,11 +288,13 @@ func (c *Ctl) LoadLastProposers(rootHeight uint64) (*lib.Proposers, lib.ErrorI) 
 	return &lib.Proposers{Addresses: [][]byte{{}, {}, {}, {}, {}}}, nil
 }
 func (c *Ctl) LoadMinimumEvidenceHeight(rootChainId, rootHeight uint64) (*uint64, lib.ErrorI) {
-	z := uint64(0)
+	z := c.MinEvidenceHeight
 	return &z, nil
 }
-func (c *Ctl) IsValidDoubleSigner(rootChainId, rootHeight uint64, address []byte) bool { return true }
-func (c *Ctl) LoadMaxBlockSize() int                                                   { return 1 << 20 }
+func (c *Ctl) IsValidDoubleSigner(rootChainId, rootHeight uint64, address []byte) bool {
+	return !c.AlreadySlashed[fmt.Sprintf("%x@%d", address, rootHeight)]
+}
+func (c *Ctl) LoadMaxBlockSize() int { return 1 << 20 }
 
 // ---------------------------------------------------------------- driving
 
